@@ -60,7 +60,11 @@ def records_case(draw, writer):
         for _ in range(draw(st.integers(0, 5))):
             k = draw(st.integers(0, 3))
             if k == 0:
-                segs.append(("lit", draw(st.text(st.sampled_from("ab :-|,\t\"'é"), max_size=5))))
+                segs.append(("lit", draw(st.one_of(
+                    st.text(st.sampled_from("ab :-|,\t\"'é"), max_size=5),
+                    # text that is not ASCII, and backslash sequences other than the three the writer documents
+                    # (\\r \\n \\t): literal text of the template, reproduced as it is
+                    st.sampled_from(["\u2192 \u20ac", "\u65e5\u672c", "\U0001f600", "\\x41", "\\u20ac", "\\0", "\\a", "caf\u00e9 \\d+"])))))
             elif k == 1:
                 segs.append(("field", draw(st.sampled_from(pool)), ""))
             elif k == 2:
